@@ -907,6 +907,19 @@ class Run(object):
             raise HarnessError('leaf count mismatch')
         if raw is not None:
             self._check_raw(raw, raw_bits, res_arrs, f)
+        if out_obj is None and 'x0' not in f:
+            # an out-of-place form hands back a NEW element: if it shared
+            # memory with an operand, the caller's next in-place operation on
+            # the result would modify that operand (seed e01: `0 + x`
+            # returning x itself; sum() and accumulation loops start so)
+            for k_, v_ in leaves.items():
+                if any(np.shares_memory(r_, v_) for r_ in res_arrs
+                       if r_.size):
+                    self.viol('result-aliases-operand', _form_class(f),
+                              '{} on {} returned an element that shares '
+                              'memory with a live element of the pool: an '
+                              'in-place operation on the result would modify '
+                              'it'.format(f, self.describe()))
         worst = 0.0
         for ra, ev, mg in zip(res_arrs, exp, mags):
             if ra.dtype != np.dtype(pool.cfg['leaf']['dtype']):
